@@ -155,7 +155,7 @@ def openSock (k : Kernel) (v6 dgram : Bool) : Kernel × Nat :=
   k.insertSock { dgram := dgram, v6 := v6 }
 
 /-- `tcp::poll_connect` (tcp.rs:47). -/
-def pollConnect (k : Kernel) (fd : Nat) (peer : SockAddr) : Kernel × Res Unit :=
+def pollConnect (cfg : Cfg) (k : Kernel) (fd : Nat) (peer : SockAddr) : Kernel × Res Unit :=
   match k.getSock fd with
   | none => (k, .err .notFound)
   | some s =>
@@ -184,7 +184,7 @@ def pollConnect (k : Kernel) (fd : Nat) (peer : SockAddr) : Kernel × Res Unit :
           let k5 := k4.insertConnection src peer fd
           let k6 := k5.emit src peer
             { srcPort := port, dstPort := peer.port, seq := isn, ack := 0,
-              flags := { syn := true }, window := defaultWindow, payload := [] }
+              flags := { syn := true }, window := synWindow cfg, payload := [] }
           (k6, .pending)
 
 /-- `Kernel::poll_accept` (mod.rs:440). -/
@@ -323,7 +323,7 @@ def countChildren (k : Kernel) (listenerFd : Nat) (l : SockAddr) : Nat :=
        | none => false)).length
 
 /-- `accept_syn` (tcp.rs:407). -/
-def acceptSyn (k : Kernel) (lfd : Nat) (l r : SockAddr) (s : Seg) : Kernel :=
+def acceptSyn (cfg : Cfg) (k : Kernel) (lfd : Nat) (l r : SockAddr) (s : Seg) : Kernel :=
   match k.getSock lfd with
   | none => k
   | some ls =>
@@ -341,7 +341,7 @@ def acceptSyn (k : Kernel) (lfd : Nat) (l r : SockAddr) (s : Seg) : Kernel :=
                                      peer := some r, tcb := some t }
         let k5 := k4.insertConnection l r child
         k5.emit l r { srcPort := l.port, dstPort := r.port, seq := isn, ack := wadd s.seq 1,
-                      flags := { syn := true, ack := true }, window := defaultWindow, payload := [] }
+                      flags := { syn := true, ack := true }, window := synWindow cfg, payload := [] }
 
 /-- `push_to_listener` (tcp.rs:492). -/
 def pushToListener (k : Kernel) (child : Nat) (l : SockAddr) : Kernel :=
@@ -408,7 +408,7 @@ def deliver (cfg : Cfg) (k : Kernel) (p : Packet) : Kernel :=
     | none =>
       if p.seg.flags.syn && !p.seg.flags.ack then
         match k.findListener l with
-        | some lfd => k.acceptSyn lfd l r p.seg
+        | some lfd => k.acceptSyn cfg lfd l r p.seg
         | none => k.emitRst l r p.seg
       else if !p.seg.flags.rst then k.emitRst l r p.seg
       else k
@@ -497,7 +497,7 @@ def retxPass1Step (cfg : Cfg) (acc : Kernel × List Nat × List Nat) (fd : Nat) 
     | .abort => (k', acc.2.1, acc.2.2 ++ [fd])
 
 /-- `emit_handshake` (tcp.rs:1183). -/
-def emitHandshake (k : Kernel) (fd : Nat) : Kernel :=
+def emitHandshake (cfg : Cfg) (k : Kernel) (fd : Nat) : Kernel :=
   match k.getSock fd with
   | none => k
   | some s =>
@@ -505,12 +505,12 @@ def emitHandshake (k : Kernel) (fd : Nat) : Kernel :=
     | none => k
     | some t =>
       let l := boundEndpoint s
-      k.emit l t.peer (t.handshakeSeg l.port)
+      k.emit l t.peer (t.handshakeSeg l.port (synWindow cfg))
 
 /-- `check_retx` (tcp.rs:1118). -/
 def checkRetx (cfg : Cfg) (k : Kernel) : Kernel :=
   let r := (k.retxCands cfg).foldl (retxPass1Step cfg) (k, [], [])
-  let k2 := r.2.1.foldl emitHandshake r.1
+  let k2 := r.2.1.foldl (emitHandshake cfg) r.1
   r.2.2.foldl (fun k fd => abortOrReap cfg k fd false) k2
 
 /-- `segment_one` (tcp.rs:1249). -/
